@@ -233,6 +233,49 @@ fn odd_ids(v: &Mutex<Vec<(String, String)>>) {
     check("LocalAssetCache", l.as_any_cache(), v);
 }
 
+/// Presence is not disturbed by operations that name other keys: after removals / takes of keys
+/// that are absent (and of one that is present), every other entry is still there, at its address,
+/// for every thread.
+fn unrelated_removals(v: &Mutex<Vec<(String, String)>>) {
+    for hot in [false, true] {
+        let mem = Mem::new(hot);
+        for k in ["k0", "k1", "k2", "gone"] {
+            mem.write(k, "x", b"7");
+        }
+        let mut c = if hot { AssetCache::with_source(mem.clone()) } else { AssetCache::without_hot_reloading(mem.clone()) };
+        let addr = |c: &AssetCache<Mem>, k: &str| c.get_cached::<TInt>(k).map(|h| h as *const _ as usize);
+        let before: Vec<Option<usize>> = ["k0", "k1", "k2"].iter().map(|k| c.load::<TInt>(k).ok().map(|h| h as *const _ as usize)).collect();
+        let _ = c.load::<TInt>("gone");
+        let mut steps: Vec<String> = vec![];
+        let mut check = |c: &AssetCache<Mem>, steps: &Vec<String>| {
+            std::thread::scope(|s| {
+                for _ in 0..2 {
+                    s.spawn(|| {
+                        for (i, k) in ["k0", "k1", "k2"].iter().enumerate() {
+                            if !c.contains::<TInt>(k) || addr(c, k) != before[i] || c.load::<TInt>(k).ok().map(|h| h as *const _ as usize) != before[i] {
+                                violation(v, "presence-flipped", format!("hot = {hot}: after {} the entry {k} (loaded before, never removed) is absent or at another address", steps.join("; ")));
+                            }
+                        }
+                    });
+                }
+            });
+        };
+        steps.push("remove of an absent key".into());
+        let _ = c.remove::<TInt>("absent");
+        check(&c, &steps);
+        steps.push("take of an absent key".into());
+        let _ = c.take::<TInt>("absent too");
+        check(&c, &steps);
+        steps.push("remove of another, present key".into());
+        let _ = c.remove::<TInt>("gone");
+        check(&c, &steps);
+        steps.push("remove of the same key again".into());
+        let _ = c.remove::<TInt>("gone");
+        let _ = c.remove::<SVal>("k0");
+        check(&c, &steps);
+    }
+}
+
 pub fn run(a: &Args) {
     trace_enable(false);
     let mut rng = Rng::new(a.seed);
@@ -270,6 +313,10 @@ pub fn run(a: &Args) {
     }
     odd_ids(&v);
     evals += 2;
+    if !only_reentrant {
+        unrelated_removals(&v);
+        evals += 2;
+    }
     samples.push("{\"kind\": \"loader registers a placeholder under its own key (AssetCache, LocalAssetCache)\"}".to_string());
     let viol = v.into_inner().unwrap();
     if !viol.is_empty() {
